@@ -14,10 +14,10 @@ CLAIMED = {
          "Pairing and shape only: each operator reaches the runtime function and the metamethod name of that operator; the six arithmetic functions and the three numeric comparisons have, per pair of operand kinds, the result kind and the Go operator or exact helper of the manual's table (integers stay int64 and wrap, any float makes a float, / is a float quotient, mixed comparisons go through the exact helpers); integer division by zero is an error path, not a Go panic. The values computed inside the helpers (floor division and modulo signs, exact mixed comparison, conversions, numerals, the math library) are value-level and not decided.",
          "Trusted: go/ssa; frozen operator tables. Not decided: every numeric result (wrap-around, floor division, mixed comparison, conversions, numerals, math library).",
          "DESIGN.md 10.2 (C02), 6"),
- "C19": ("the crash-and-runaway rules of C04/C05 restricted to findings located in lib/stringlib, lib/tablelib and luastrings: argument arity (dataflow over GoCont accessors), relative-bound proofs for normalised positions, sign and absolute-bound proofs for computed sizes, loop classification (metered / bounded / table-listed)",
-         "Only the 'never crashes, never runs away' corners of the string and table functions for extreme positions, counts and ranges. What the functions compute (the sequence and byte-string laws) is value-level and not decided.",
+ "C19": ("the crash-and-runaway rules of C04/C05 restricted to findings located in lib/stringlib, lib/tablelib and luastrings: argument arity (dataflow over GoCont accessors), relative-bound proofs for normalised positions, sign and absolute-bound proofs for computed sizes, loop classification (metered / bounded / table-listed); who-may-call scan for Unicode-aware operations on byte strings; def-use check that a position found in a reslice is re-based",
+         "Only the 'never crashes, never runs away' corners of the string and table functions for extreme positions, counts and ranges. Two structural conditions on what they compute: no function decodes a Lua string as UTF-8, and a position found in x[lo:] has lo added back. What the functions compute otherwise (the sequence and byte-string laws) is value-level and not decided.",
          "Trusted: as for C04 and C05. Not decided: results of sub/byte/rep/find/insert/remove/move/concat/unpack/sort for every argument tuple.",
-         "DESIGN.md 10.2 (C19), 6"),
+         "DESIGN.md 10.2 (C19), 10.3 (R-BYTES, R-REBASE), 6"),
  "C15": ("switch exhaustiveness against the constants the pattern compiler emits; panic-instruction and dropped-error scan over the call closure of pattern.New; must-pass-through reachability on the CFG of find/match/gmatch/gsub (successful return only behind pattern.New, exemptions by branch-condition class); budget plumbing and cursor-writer sub-rules of the metering analysis",
          "Structural part only: item-type exhaustiveness, no panic and no dropped error in the pattern compiler, no unlisted shortcut around the compiler, matcher budget fed from and charged to the quota. The match semantics (pattern x subject) are value-level and not decided.",
          "Trusted: go/ssa; exemption table confirmed against the manual. Not decided: what the matcher returns.",
